@@ -11,7 +11,7 @@ import numpy as np
 
 import xobjects as xo
 from xv import bufmon
-from xv.typegen import TypeGen, ValGen, build, plain, AVal, shape_sig, is_static
+from xv.typegen import TypeGen, ValGen, build, plain, AVal, shape_sig, is_static, auto_array_name
 from xv.model import Env, Obs, compare, exc_kind, nodes, get_path, set_path, set_model
 from xv.decoder import decode, NULLVALUE
 from xv.props.common import ctxs, flush_contracts
@@ -65,13 +65,30 @@ def gen_types(rng, tg):
         P["f"].append(["s", {"k": "str"}])
     Q = {"k": "ar", "n": tg.name("Q"), "it": sc(rng.choice(["Int32", "Float64", "Int8"])),
          "dims": [rng.choice([None, None, 3])], "ord": [0]}
+    if rng.random() < 0.35:
+        # the automatically named class, evaluated afresh at every use (xo.Ref[xo.Float64[:]] here, xo.Float64[:](...) there)
+        Q["anon"] = True
+        Q["n"] = auto_array_name(Q["it"], Q["dims"])
     R = {"k": "st", "n": tg.name("R"), "f": [["v", sc("Int64")], ["nxt", {"k": "ref", "to": P}]]}
-    mem = [P, Q, R]
+    # a target that is an array of arrays (or of references), named or automatically named at either level
+    wi = sc(rng.choice(["Int64", "Float64", "Int16"]))
+    if rng.random() < 0.75:
+        wit = {"k": "ar", "n": tg.name("Wi"), "it": wi, "dims": [rng.choice([None, None, 2])], "ord": [0]}
+        if rng.random() < 0.6:
+            wit["anon"] = True
+            wit["n"] = auto_array_name(wi, wit["dims"])
+    else:
+        wit = {"k": "ref", "to": P}
+    W = {"k": "ar", "n": tg.name("W"), "it": wit, "dims": [rng.choice([None, None, 2])], "ord": [0]}
+    if rng.random() < 0.6:
+        W["anon"] = True
+        W["n"] = auto_array_name(wit, W["dims"])
+    mem = [P, Q, R, W]
     rng.shuffle(mem)
     U = {"k": "ur", "n": tg.name("U"), "m": mem[: rng.randint(1, 3)]}
     # a union class derived from U that declares the same members in another order
     Us = {"k": "ur", "n": tg.name("Us"), "m": list(reversed(U["m"])), "base": U["n"]} if len(U["m"]) > 1 else None
-    pool = [("rp", {"k": "ref", "to": P}), ("rq", {"k": "ref", "to": Q}), ("u", U), ("rr", {"k": "ref", "to": R}),
+    pool = [("rp", {"k": "ref", "to": P}), ("rq", {"k": "ref", "to": Q}), ("u", U), ("rr", {"k": "ref", "to": R}), ("rw", {"k": "ref", "to": W}),
             ("arp", {"k": "ar", "n": tg.name("AR"), "it": {"k": "ref", "to": P}, "dims": [rng.choice([2, None])], "ord": [0]}),
             ("au", {"k": "ar", "n": tg.name("AU"), "it": U, "dims": [rng.choice([2, None])], "ord": [0]}),
             ("k", sc("Int64")), ("name", {"k": "str"}),
@@ -99,9 +116,9 @@ def gen_types(rng, tg):
                 hd["dflt"] = dflt
             holders.append(hd)
         elif r < 0.85:
-            holders.append(pool[4][1])
-        else:
             holders.append(pool[5][1])
+        else:
+            holders.append(pool[6][1])
     # arrays of references of 1-3 dimensions, created without values (every slot must then be null)
     def nd_dims():
         nd = rng.choice([1, 2, 2, 3])
@@ -120,7 +137,7 @@ def gen_types(rng, tg):
     E3 = {"k": "ar", "n": tg.name("E"), "it": N, "dims": [rng.choice([None, 2, 3])], "ord": [0]}
     # a class that is NOT the declared target of Ref[Q] but holds compatible data (same items, other extents declaration)
     Qx = {"k": "ar", "n": tg.name("Qx"), "it": Q["it"], "dims": [None] if Q["dims"][0] is not None else [rng.choice([1, 2, 3])], "ord": [0]}
-    return dict(P=P, Q=Q, R=R, U=U, E1=E1, E2=E2, Qx=Qx, N=N, E3=E3), holders
+    return dict(P=P, Q=Q, R=R, U=U, E1=E1, E2=E2, Qx=Qx, N=N, E3=E3, W=W), holders
 
 
 class Graph:
